@@ -39,3 +39,113 @@ class WidthContract(Contract):
 
 
 CONTRACTS = [WidthContract()]
+
+
+# ---------------------------------------------------------------------------------------------------
+# Verification of width() itself (the contract above is what callers see)
+# ---------------------------------------------------------------------------------------------------
+class Fail(Contract):
+    key = "hdl21.elab.helpers.width:fail"
+    raises = (RuntimeError,)
+    posts = [("never-returns", lambda eng, st0, st, a, res: False)]
+
+    def scenarios(self, eng):
+        return []
+
+
+class RefWidth(Contract):
+    key = "hdl21.elab.helpers.width:ref_width"
+    raises = (RuntimeError,)
+    returns = "int"
+
+    def scenarios(self, eng):
+        return []
+    posts = property(lambda self: [("value", lambda eng, st0, st, a, res: z3.And(res.z == W(a.ref.z), res.z >= 1))])
+
+
+class WidthDispatch(Contract):
+    """width(conn): Signal -> its width field; Slice -> the number of bits the slice selects; Concat -> the sum of its
+    parts' widths; references -> ref_width; bundles and no-connects -> refused through `failer`."""
+    key = "hdl21.elab.helpers.width:width"
+    props = ("C03",)
+    recursive = True
+    pure = False
+    raises = (RuntimeError, ValueError)
+    returns = "int"
+
+    def scenarios(self, eng):
+        from . import c_export
+
+        def mk(nm, f, expect_raise=False):
+            s = Scenario(nm, f)
+            s.expect_raise = expect_raise
+            return s
+
+        def sig(eng, st):
+            c = sym_ref(st, "conn", (Signal,))
+            st.assume(st.heap.get("width", c.z) >= 1)
+            return {"conn": c, "failer": WIDTH_FAIL}
+        yield mk("Signal", sig)
+        for nm, mkidx in c_export.index_scenarios((None, -2)):
+            def sl(eng, st, mkidx=mkidx):
+                return {"conn": c_export.mk_slice(eng, st, mkidx()), "failer": WIDTH_FAIL}
+            yield mk("Slice," + nm, sl)
+        for n in (1, 2, 3):
+            def cat(eng, st, n=n):
+                c = sym_ref(st, "conn", (Concat,))
+                parts = tuple(sym_ref(st, f"part{k}", (Signal, Slice, Concat)) for k in range(n))
+                eng.write_field(st, c, "parts", parts)
+                st.ghost["parts"] = parts
+                return {"conn": c, "failer": WIDTH_FAIL}
+            yield mk(f"Concat[{n}]", cat)
+
+        def refs(eng, st):
+            return {"conn": sym_ref(st, "conn", (PortRef, BundleRef)), "failer": WIDTH_FAIL}
+        yield mk("reference", refs)
+
+        def bad(eng, st):
+            return {"conn": sym_ref(st, "conn", NO_WIDTH), "failer": WIDTH_FAIL}
+        yield mk("no-width", bad, True)
+
+    def pre(self, eng, st, a):
+        from . import c_export
+        if all(issubclass(k, Slice) for k in eng.classes_of(st, a.conn)):
+            return c_export.cache_coherent(st, a.conn.z)
+        return True
+
+    def frame(self, eng, st, a):
+        for f in ("_inner", "top", "bot", "step", "width", "_width"):
+            st.heap.havoc_field(f)
+
+    def p_value(self, eng, st0, st, a, res):
+        from . import c_export, c_slice
+        cl = eng.classes_of(st0, a.conn)
+        if all(issubclass(k, Signal) for k in cl):
+            return res.z == st0.heap.get("width", a.conn.z)
+        if all(issubclass(k, Slice) for k in cl):
+            sp = c_slice.SliceInnerContract.spec(st0, NS({"slize": a.conn}))
+            return z3.And(res.z == sp["n"], res.z >= 1)
+        if all(issubclass(k, Concat) for k in cl):
+            parts = st0.ghost.get("parts")
+            if parts is None:
+                return res.z == W(a.conn.z)
+            return res.z == sum(W(p.z) for p in parts)
+        return z3.And(res.z == W(a.conn.z), res.z >= 1)
+    posts = property(lambda self: [("value", self.p_value)])
+    must_raise = property(lambda self: [("no-width", lambda eng, st0, a: all(
+        issubclass(k, NO_WIDTH) for k in eng.classes_of(st0, a.conn)))])
+    reasons = property(lambda self: {RuntimeError: lambda eng, st0, a: not all(
+        issubclass(k, Signal) for k in eng.classes_of(st0, a.conn))})
+
+
+import importlib
+WIDTH_FAIL = importlib.import_module("hdl21.elab.helpers.width").fail
+
+
+def verify_engine():
+    from . import c_export
+    contracts = [WidthDispatch(), Fail(), RefWidth()] + c_export.SLICE_ATTRS
+    return mk_engine(contracts=contracts, schema_extra=c_export.SCHEMA_EXTRA)
+
+
+VERIFY_WIDTH = [WidthDispatch()]
